@@ -62,7 +62,7 @@ Dependants can be filtered by target type using the --target-type flag.`,
 			logger.Fatalf(err.Error())
 		}
 		selector := selection.New(nil, config.Global.Tags, config.Global.ExcludeTags, targetTypeFilter)
-		filteredRDeps := selector.FilterNodes(rDeps)
+		filteredRDeps := selector.FilterNodes(graph, rDeps)
 
 		model.PrintSortedLabels(filteredRDeps)
 	},
